@@ -132,11 +132,23 @@ REG["C38"] = dict(
         "c38_non_negative_len2": H(module="simd", enc=["simd::l2_distance_squared_simd"], sym="2x2 finite f32", bound="length 2"),
         "c38_symmetric_len1": H("thorough", module="simd", enc=["simd::l2_distance_squared_simd"], sym="2 finite f32", bound="length 1"),
         "c38_symmetric_len2": H("thorough", module="simd", enc=["simd::l2_distance_squared_simd"], sym="2x2 finite f32", bound="length 2"),
+        "c38_two_hot_len7": H(module="simd", enc=["simd::l2_distance_squared_simd"], sym="two positions, two integer differences in [-8, 8]", bound="length 7 (remainder only)"),
+        "c38_two_hot_len9": H(module="simd", enc=["simd::l2_distance_squared_simd"], sym="as above", bound="length 9 (one 8-lane chunk + remainder 1)"),
+        "c38_two_hot_len16": H(module="simd", enc=["simd::l2_distance_squared_simd"], sym="as above", bound="length 16 (two chunks, no remainder)"),
+        "c38_two_hot_len23": H(module="simd", enc=["simd::l2_distance_squared_simd"], sym="as above", bound="length 23 (two chunks + remainder 7)"),
+        "c38_simd_two_hot_len7": H(module="simd", features=["simd"], enc=["simd::l2_distance_squared_simd (simd feature build: wide::f32x8 over SSE, the default configuration)"], sym="two distinct positions, two integer differences in [-8, 8]", bound="length 7 (remainder loop only): result must be exactly v1^2+v2^2 in both argument orders"),
+        "c38_simd_two_hot_len9": H(module="simd", features=["simd"], enc=["simd::l2_distance_squared_simd (simd feature build: wide::f32x8 over SSE, the default configuration)"], sym="two distinct positions, two integer differences in [-8, 8]", bound="length 9 (one 8-lane chunk + remainder 1): result must be exactly v1^2+v2^2 in both argument orders"),
+        "c38_simd_two_hot_len16": H(module="simd", features=["simd"], enc=["simd::l2_distance_squared_simd (simd feature build: wide::f32x8 over SSE, the default configuration)"], sym="two distinct positions, two integer differences in [-8, 8]", bound="length 16 (two chunks, no remainder): result must be exactly v1^2+v2^2 in both argument orders"),
+        "c38_simd_two_hot_len23": H(module="simd", features=["simd"], enc=["simd::l2_distance_squared_simd (simd feature build: wide::f32x8 over SSE, the default configuration)"], sym="two distinct positions, two integer differences in [-8, 8]", bound="length 23 (two chunks + remainder 7): result must be exactly v1^2+v2^2 in both argument orders"),
+        "c38_simd_zero_on_equal_len4": H(module="simd", features=["simd"], enc=["simd::l2_distance_squared_simd (simd feature build: wide::f32x8 over SSE, the default configuration)"], sym="4 finite f32 (bit-precise)", bound="length 4"),
+        "c38_simd_zero_on_equal_len9": H(module="simd", features=["simd"], enc=["simd::l2_distance_squared_simd (simd feature build: wide::f32x8 over SSE, the default configuration)"], sym="9 finite f32", bound="length 9"),
+        "c38_simd_non_negative_len2": H(module="simd", features=["simd"], enc=["simd::l2_distance_squared_simd (simd feature build: wide::f32x8 over SSE, the default configuration)"], sym="2x2 finite f32", bound="length 2"),
+        "c38_simd_non_negative_len8": H("thorough", module="simd", features=["simd"], enc=["simd::l2_distance_squared_simd (simd feature build: wide::f32x8 over SSE, the default configuration)"], sym="2x8 finite f32", bound="length 8 (one full 8-lane chunk)"),
         "c38_empty_vectors": H(module="simd", enc=["simd::l2_distance_simd", "l2_distance_squared_simd"], sym="-", bound="length 0"),
         "c38_exact_domain_len2": H("thorough", module="simd", enc=["simd::l2_distance_squared_simd"], sym="2x2 integers in [-1024, 1024]", bound="length 2 on the exactness domain (every intermediate exact in f32)"),
     },
-    assumptions=["built with --no-default-features: this is the scalar definition; the `simd` feature (wide crate) lowers to x86 intrinsics Kani cannot compile, so the accelerated build is NOT covered — the accelerated-vs-scalar half of the property is not discharged"],
-    out=["the simd-feature build (the accelerated code itself)", "lengths > 9", "non-finite inputs"],
+    assumptions=["c38_simd_* harnesses are built with --features simd (the accelerated code users run by default): wide::f32x8 executes as compiled, with the three SSE intrinsics it lowers to on this target (_mm_sub_ps, _mm_add_ps, _mm_mul_ps) replaced by IEEE lane-wise models, because Kani attaches an integer-overflow check to float simd_sub/add/mul; AVX code paths of `wide` (not compiled for the baseline x86_64 target) are outside the claim", "the other harnesses are built with --no-default-features (scalar fallback)."],
+    out=["closeness of accelerated and scalar results on arbitrary floats (float sums in different orders: not decided; the two-hot harnesses decide it on inputs where every intermediate is exact)", "lengths other than 0, 2, 4, 7, 8, 9, 16, 23", "non-finite inputs", "AVX builds of the wide crate"],
 )
 
 # ---------------------------------------------------------------------------
@@ -147,15 +159,15 @@ REG["C37"] = dict(
     harnesses={
         "c37_normalize_2_moderate": H("thorough", module="adaptive", enc=["normalize_scores"], sym="2 finite f32 with |x| <= 1e30 (bit-precise)", bound="2 scores, magnitude <= 1e30"),
         "c37_normalize_2_extreme": H("thorough", module="adaptive", enc=["normalize_scores"], sym="2 finite f32, full range", bound="2 scores, any finite value (max - min may overflow)"),
-        "c37_normalize_3_moderate": H("thorough", module="adaptive", enc=["normalize_scores"], sym="3 finite f32 with |x| <= 1e30", bound="3 scores"),
+        "c37_normalize_3_moderate": H("experimental", module="adaptive", enc=["normalize_scores"], sym="3 finite f32 with |x| <= 1e30", bound="3 scores"),
         "c37_absolute_cutoff_4": H(module="adaptive", enc=["find_absolute_cutoff"], sym="4 finite scores, list length 0..4, threshold (any f32 incl. NaN/inf), min_results (any usize)", bound="<= 4 scores"),
-        "c37_dispatch_raw_3": H("thorough", module="adaptive", enc=["find_adaptive_cutoff", "find_absolute_cutoff"], sym="3 finite scores, length 0..3, strategy absolute or relative with an arbitrary f32 parameter, min_results",
+        "c37_dispatch_raw_3": H("experimental", module="adaptive", enc=["find_adaptive_cutoff", "find_absolute_cutoff"], sym="3 finite scores, length 0..3, strategy absolute or relative with an arbitrary f32 parameter, min_results",
                                 bound="<= 3 scores, normalize_scores = false"),
         "c37_dispatch_absolute_2": H("thorough", module="adaptive", enc=["find_adaptive_cutoff", "find_absolute_cutoff"], sym="2 finite scores, length 0..2, arbitrary threshold, min_results", bound="<= 2 scores, absolute strategy through the dispatcher"),
         "c37_dispatch_relative_2": H("experimental", module="adaptive", enc=["find_adaptive_cutoff", "find_absolute_cutoff"], sym="2 finite scores, length 0..2, arbitrary ratio, min_results", bound="<= 2 scores, relative strategy (one float multiplication)"),
         "c37_dispatch_cliff_2": H("thorough", module="adaptive", enc=["find_adaptive_cutoff", "find_cliff_cutoff"], sym="2 finite scores, arbitrary max_drop_ratio, min_results", bound="<= 2 scores (one float division)"),
         "c37_dispatch_combined_2": H("thorough", module="adaptive", enc=["find_adaptive_cutoff", "find_combined_cutoff"], sym="2 finite scores, arbitrary parameters, min_results", bound="<= 2 scores (one float division)"),
-        "c37_elbow_bounds_3": H("thorough", module="adaptive", enc=["find_elbow_cutoff"], sym="3 scores |x| <= 1e6, sensitivity 0..100, min_results 0..2", bound="exactly 3 scores"),
+        "c37_elbow_bounds_3": H("experimental", module="adaptive", enc=["find_elbow_cutoff"], sym="3 scores |x| <= 1e6, sensitivity 0..100, min_results 0..2", bound="exactly 3 scores"),
     },
     assumptions=["alloc::fmt::format stubbed to an empty string in the cut-off harnesses (the reason string is not part of the property)"],
     out=["lists longer than 4", "normalisation combined with a strategy in one query (float division makes the joint query intractable; the two halves are checked separately)", "NaN scores (excluded by the property)"],
@@ -173,7 +185,7 @@ REG["C35"] = dict(
         "c35_ascii_two_occurrences": H("experimental", module="lex", panic_is_violation=True, enc=["compute_snippet_slices"], sym="two occurrences with bounds 0..8, window 1..4, max 1..3", bound="fixed text 'a. b.'"),
         "c35_multibyte_one_occurrence": H(module="lex", panic_is_violation=True, enc=["compute_snippet_slices"], sym="one occurrence (arbitrary usize bounds < 2^63), window 1..16, max >= 1",
                                           bound="fixed 9-byte text with 1-, 2- and 3-byte characters"),
-        "c35_two_snippets_long_text": H("thorough", module="lex", panic_is_violation=True, enc=["compute_snippet_slices"], sym="two occurrences with bounds 0..64, window 1..4, max 1..3", bound="fixed 26-byte text"),
+        "c35_two_snippets_long_text": H("experimental", module="lex", panic_is_violation=True, enc=["compute_snippet_slices"], sym="two occurrences with bounds 0..64, window 1..4, max 1..3", bound="fixed 26-byte text"),
         "c35_window_zero": H("experimental", module="lex", panic_is_violation=True, expect="known", enc=["compute_snippet_slices"], sym="0..1 occurrence", bound="text 'a.b', window = 0"),
         "c35_max_zero": H(module="lex", panic_is_violation=True, expect="known", enc=["compute_snippet_slices"], sym="1 occurrence", bound="text 'a.b', max_snippets = 0"),
         "c35_huge_offsets": H(module="lex", panic_is_violation=True, expect="known", enc=["compute_snippet_slices"], sym="1 occurrence and window over the full usize range", bound="3-byte text"),
@@ -242,9 +254,9 @@ REG["C15"]["harnesses"].update({
     "c15_timeline_window_both_bounds_1": H("experimental", module="timeline", replay="solver-only", enc=["timeline::build_timeline"], sym="frame timestamp, since, until (any i64)", bound="1 active frame, no time-index manifest (entries come from the TOC), forward, no limit; frame_preview ghosted, Frame::clone replaced by a scalar copy"),
     "c15_timeline_window_one_bound_1": H("experimental", module="timeline", replay="solver-only", enc=["timeline::build_timeline"], sym="frame timestamp, the bound, which bound is present", bound="1 active frame, exactly one of since/until"),
     "c15_timeline_window_both_bounds_2": H("experimental", module="timeline", replay="solver-only", enc=["timeline::build_timeline"], sym="2 frame timestamps, since, until", bound="2 active frames, both bounds present"),
-    "c15_timeline_with_index": H("thorough", module="timeline", replay="solver-only", enc=["timeline::build_timeline"], sym="3 frames: timestamp, current status; since, until (Option<i64>), reverse, limit 0..4",
+    "c15_timeline_with_index": H("experimental", module="timeline", replay="solver-only", enc=["timeline::build_timeline"], sym="3 frames: timestamp, current status; since, until (Option<i64>), reverse, limit 0..4",
                                  bound="3 document frames, all listed in the time index (sorted by (ts,id) as commit writes it); statuses may have changed since"),
-    "c15_timeline_extracted_image": H("thorough", module="timeline", replay="solver-only", expect="known", enc=["timeline::build_timeline"], sym="as above", bound="3 frames, frame 2 is an ExtractedImage child that is not in the time index"),
+    "c15_timeline_extracted_image": H("experimental", module="timeline", replay="solver-only", expect="known", enc=["timeline::build_timeline"], sym="as above", bound="3 frames, frame 2 is an ExtractedImage child that is not in the time index"),
 })
 REG["C15"]["assumptions"] += ["frame_preview and the time-index read are replaced by ghosts in the build_timeline harnesses (the read itself is c15_time_index_roundtrip)"]
 
@@ -401,6 +413,10 @@ REG["C22"] = dict(
         "c30_time_index_arbitrary_2": dict(REG["C30"]["harnesses"]["c30_time_index_arbitrary_2"]),
         "c22_time_index_any_length": H(module="time_index", panic_is_violation=True, enc=["time_index::read_track"], sym="declared entry count and declared length: any u64", bound="12-byte file (header only)"),
         "c22_wal_scan_arbitrary_bytes": H("experimental", module="wal", panic_is_violation=True, enc=["EmbeddedWal::scan_records"], sym="all 100 bytes of the log region", bound="100-byte region (room for two minimal records)"),
+        "c22_read_toc_region_0": H(module="lifecycle", panic_is_violation=True, replay="solver-only", enc=["lifecycle::read_toc", "CommitFooter::decode", "CommitFooter::hash_matches", "lifecycle::verify_toc_prefix"], sym="footer offset (< 2^40), file truncated before it or not, all region bytes", bound="0 bytes behind footer_offset (empty region); File::metadata/seek/read_to_end and Toc::decode are ghosts"),
+        "c22_read_toc_region_55": H(module="lifecycle", panic_is_violation=True, replay="solver-only", enc=["lifecycle::read_toc", "CommitFooter::decode", "CommitFooter::hash_matches", "lifecycle::verify_toc_prefix"], sym="footer offset (< 2^40), file truncated before it or not, all region bytes", bound="55 bytes behind footer_offset (one byte short of a footer); File::metadata/seek/read_to_end and Toc::decode are ghosts"),
+        "c22_read_toc_region_56": H(module="lifecycle", panic_is_violation=True, replay="solver-only", enc=["lifecycle::read_toc", "CommitFooter::decode", "CommitFooter::hash_matches", "lifecycle::verify_toc_prefix"], sym="footer offset (< 2^40), file truncated before it or not, all region bytes", bound="56 bytes behind footer_offset (exactly a footer (empty TOC)); File::metadata/seek/read_to_end and Toc::decode are ghosts"),
+        "c22_read_toc_region_60": H(module="lifecycle", panic_is_violation=True, replay="solver-only", enc=["lifecycle::read_toc", "CommitFooter::decode", "CommitFooter::hash_matches", "lifecycle::verify_toc_prefix"], sym="footer offset (< 2^40), file truncated before it or not, all region bytes", bound="60 bytes behind footer_offset (4 TOC bytes + footer); File::metadata/seek/read_to_end and Toc::decode are ghosts"),
         "c22_verify_toc_prefix": H(module="lifecycle", panic_is_violation=True, enc=["lifecycle::verify_toc_prefix"], sym="32 prefix bytes, length 0..32", bound="TOC prefix of <= 32 bytes"),
         "c22_frame_bounds_validators": H("experimental", module="lifecycle", panic_is_violation=True, enc=["lifecycle::ensure_non_overlapping_frames", "compute_data_end", "compute_payload_region_end"],
                                          sym="2 frames: payload offset/length (any u64), status; file length, header WAL geometry and footer offset (any u64)", bound="2 frames"),
@@ -442,6 +458,10 @@ REG["C40"]["harnesses"].update({
 })
 REG["C40"]["assumptions"] += GROWTH_ASSUME
 REG["C40"]["out"] = [o for o in REG["C40"]["out"] if "ensure_wal_capacity" not in o] + ["the byte mover shift_data_for_wal_growth itself"]
+
+REG["C19"]["harnesses"]["c19_open_helpers_never_create"] = H(module="lock", replay="solver-only", enc=["FileLock::open_and_lock", "FileLock::open_read_only"], sym="which helper, whether the path exists (open fails or not)",
+                                                             bound="one call; OpenOptions builder methods and open are ghosts that record what was asked of the OS")
+REG["C19"]["assumptions"] += ["OpenOptions::{create, create_new, truncate, append, open} and FileLock::acquire_with_mode are ghosts in c19_open_helpers_never_create"]
 
 REG["C34"] = dict(
     cbmc_args=MEMCMP,
